@@ -55,6 +55,9 @@ func c16Case(w *core.Worker, i int) {
 	compared, changedSinceOpen := 0, false
 	inRangeAfterChange := 0
 	s.Exec("VAR @a; VAR @b;")
+	for qi, q := range queries {
+		s.Exec(fmt.Sprintf("PREPARE ps%d FROM %s;", qi, core.SQLStr(q)))
+	}
 	step := 0
 	viol := func(sig, what string) {
 		w.Violation(sig, fmt.Sprintf("step %d %q: %s", step, history[len(history)-1], what), c16Replay{Table: t.CSV(), History: append([]string{}, history...), Step: step, Detail: what})
@@ -95,8 +98,14 @@ func c16Case(w *core.Worker, i int) {
 		}
 		switch {
 		case op == 0:
-			q := queries[r.Intn(len(queries))]
-			res := exec(fmt.Sprintf("DECLARE %s CURSOR FOR %s;", cn, q))
+			qi := r.Intn(len(queries))
+			q := queries[qi]
+			decl := fmt.Sprintf("DECLARE %s CURSOR FOR %s;", cn, q)
+			if r.P(35) {
+				// the same query as a prepared statement: the cursor is declared for the statement name
+				decl = fmt.Sprintf("DECLARE %s CURSOR FOR ps%d;", cn, qi)
+			}
+			res := exec(decl)
 			if expectErr(res, c.declared, "already declared") && !c.declared {
 				*c = curModel{declared: true, query: q}
 			}
